@@ -32,7 +32,7 @@ import (
 	"verifharness/vh"
 )
 
-var pass = flag.String("pass", "hist", "seq|hist|block|blackhole")
+var pass = flag.String("pass", "hist", "seq|hist|block|blackhole|armpark")
 
 const closeSlack = time.Second
 
@@ -373,6 +373,124 @@ func blackholePass(c *vh.Ctx) {
 	}
 }
 
+// armParkPass: a voluntary Close between the reconnect loop's publish of a successor generation and
+// the transport's ArmStart. In the code ArmStart runs INSIDE the publishMu section {re-check
+// shutdown/reconnectGen; ArmStart; cur.Store}; the verif seam parks the loop at the entry of its
+// ArmStart (the few-instruction window widened to tens of milliseconds), Close is called, then the
+// loop is released. Whatever the interleaving, when Close has returned: no listener bound / no conn
+// open, no library goroutine alive, no later dial, second Close nil, reopen works. Passive HSMS-SS
+// and SECS-I, and active (the rig's dialer ignores cancellation, so a late Start gets a live conn).
+// Model correspondence: [LcLPublish] performs ArmStart (stopping := false) atomically with the
+// publish — that atomic-action assumption is what this scenario checks on the real code; a Stop-seal
+// undone after the teardown's seal would break invariant clause 7 (estop1 -> stopping) that fences the
+// start gate in [lc_gate].
+func armParkPass(c *vh.Ctx) {
+	type v struct {
+		active, s1 bool
+	}
+	for _, x := range []v{{false, false}, {false, true}, {true, false}, {true, true}} {
+		for _, hold := range []time.Duration{30 * time.Millisecond, 5 * time.Millisecond} {
+			cfg := lc.DefaultCfg()
+			cfg.BackoffInit, cfg.BackoffMult, cfg.T5 = 2*time.Millisecond, 1, 2*time.Millisecond
+			mk := lc.New
+			if x.s1 {
+				mk = lc.NewSecs1
+			}
+			r, err := mk(x.active, cfg, func(n int) lc.Plan {
+				p := lc.Normal()
+				if n == 0 {
+					p.DropAfter = 5 * time.Millisecond
+				}
+				return p
+			})
+			if err != nil {
+				c.Fail("C10: cannot build a connection", err.Error())
+				continue
+			}
+			tag := fmt.Sprintf("armpark:hold=%dms", hold.Milliseconds())
+			parked := make(chan struct{}, 1)
+			release := make(chan struct{})
+			if !hsms.VerifParkTransport(r.Conn, func(n int) {
+				if n == 2 { // 1 = Open's ArmStart, 2 = the first reconnect loop's
+					parked <- struct{}{}
+					select {
+					case <-release:
+					case <-time.After(5 * time.Second):
+					}
+				}
+			}, nil) {
+				c.Fail("C10: harness: park seam did not find the engine", tag+" "+rname(r))
+				continue
+			}
+			stop := make(chan struct{})
+			if !x.active {
+				go func() {
+					for {
+						select {
+						case <-stop:
+							return
+						default:
+						}
+						r.PeerConnect(5 * time.Millisecond)
+						time.Sleep(time.Millisecond)
+					}
+				}()
+			}
+			if o := r.Open(false, 2*time.Second); o.Class != "ok" {
+				c.Fail("C10: Open(background) failed", tag+" "+rname(r)+": "+o.Class)
+			}
+			select {
+			case <-parked:
+			case <-time.After(4 * time.Second):
+				c.Fail("C10: harness: the reconnect loop never reached ArmStart", tag+" "+rname(r))
+			}
+			go func() { time.Sleep(hold); close(release) }()
+			res := r.Close()
+			close(stop)
+			checkCloseLatency(c, r, res, tag)
+			time.Sleep(20 * time.Millisecond) // anything a late Start brings up shows now
+			gor, _ := 0, 0
+			if st := lc.LibGoroutines(); len(st) != 0 {
+				time.Sleep(200 * time.Millisecond)
+				gor = len(lc.LibGoroutines())
+			}
+			if res.Goroutines != 0 || gor != 0 || r.OpenHandles() != 0 {
+				c.Fail("C10: a generation came up after Close returned (listener / conn / goroutines left behind)",
+					fmt.Sprintf("%s %s gor_at_close=%d gor_later=%d handles=%d", tag, rname(r), res.Goroutines, gor, r.OpenHandles()))
+			}
+			if r2 := r.Close(); r2.Class != "ok" {
+				c.Fail("C10: second Close is not nil", tag+" "+rname(r)+": "+r2.Class)
+			}
+			// reopen and close again: a fresh cycle must work
+			stop2 := make(chan struct{})
+			if !x.active {
+				go func() {
+					for {
+						select {
+						case <-stop2:
+							return
+						default:
+						}
+						r.PeerConnect(5 * time.Millisecond)
+						time.Sleep(time.Millisecond)
+					}
+				}()
+			}
+			if o := r.Open(false, 2*time.Second); o.Class != "ok" {
+				c.Fail("C10: reopen after Close failed", tag+" "+rname(r)+": "+o.Class)
+			} else if !r.WaitState(hsms.SelectedState, 3*time.Second) {
+				c.Fail("C10: reopened connection did not reach Selected", tag+" "+rname(r))
+			}
+			close(stop2)
+			res3 := r.Close()
+			checkCloseLatency(c, r, res3, tag)
+			r.Shutdown()
+			c.Count("armpark/" + rname(r))
+			judge(c, r, tag)
+		}
+	}
+}
+
 func seqPass(c *vh.Ctx) {
 	ensureOpenPass(c)
 	for i := 0; i < c.N; i++ {
@@ -672,6 +790,8 @@ func main() {
 		blockPass(c)
 	case "blackhole":
 		blackholePass(c)
+	case "armpark":
+		armParkPass(c)
 	default:
 		c.Note("unknown pass " + *pass)
 	}
